@@ -16,11 +16,13 @@ func init() {
 		Rule: "payloader: one execution = one payloader instance driven through 32768+130 frames (every picture id, the 127/128 form switch and the wrap) for one (MTU, picture ids on/off, frame-length cycle offset), each frame is one case; decoder: one execution = one descriptor (all 256 first octets x all 256 extension octets x field values) with every truncation as a case; non-trivial = frame needs more than one packet / descriptor has the extension octet",
 		Assumptions: []string{
 			"payloader MTUs {5,6,8,10,100,1200} with picture ids and {2,3,4,10,100,1200} without; frame lengths cycle through {1,2,3,k*(MTU-h)+{-1,0,1} for k=1,2,3} (h = descriptor size in use) with every cycle offset, so that every picture id meets every length class",
+			"long frames: 257, 65537 and 70000 packets per frame (one-byte fragment budget at the smallest MTU of each picture-id form, and MTU 1200 with frames of 300 000 bytes) at picture ids {0,127,128,0x7FFF}",
 			"decoder field alphabets in the flag product: 7-bit ids {0,127,0x55}, 15-bit ids {0,0x7FFF,0x1234}, TL0PICIDX {0,255}, TID/Y/KEYIDX octet {00,FF,A5}, 0/1/3 payload bytes; complete sub-domains one field at a time: all 128 + 32768 picture ids, all 256 TL0PICIDX, all 256 TID/Y/KEYIDX octets x T x K",
 			"a cut exactly after the descriptor leaves an empty payload, which the library accepts (pinned by an existing test)",
 		},
 		Scenarios: []mc.Scenario{
 			{Name: "payloader-all-picture-ids", Tiers: "qt", ShardDepth: 3, Run: c11Payloader},
+			{Name: "payloader-long-frames", Tiers: "qt", ShardDepth: 2, Run: c11Long},
 			{Name: "descriptor-flag-product", Tiers: "qt", ShardDepth: 2, Run: c11Flags},
 			{Name: "descriptor-complete-fields", Tiers: "qt", ShardDepth: 2, Run: c11Fields},
 		},
@@ -243,4 +245,58 @@ func c11Fields(c *mc.Ctx) {
 	}
 	c.NonTrivial()
 	c.Outcome(fmt.Sprintf("field=%d", which))
+}
+
+// c11Long: frames that need more than 256 / 65536 packets.
+func c11Long(c *mc.Ctx) {
+	ids := c.Bool()
+	startID := mc.From(c, []int{0, 127, 128, 0x7FFF})
+	if !ids && startID != 0 {
+		return
+	}
+	big := c.Bool()
+	p := &codecs.VP8Payloader{EnablePictureID: ids}
+	for i := 0; i < startID; i++ {
+		p.Payload(1200, []byte{1})
+	}
+	h := 1
+	if ids {
+		h = 3
+		if startID >= 128 {
+			h = 4
+		}
+	}
+	mtu, n := h+1, mc.From(c, []int{257, 65537, 70000})
+	if big {
+		mtu, n = 1200, 300000
+	}
+	frame := fill(n, 0x3D)
+	pkts := p.Payload(uint16(mtu), frame)
+	var got []byte
+	for i, pk := range pkts {
+		if len(pk) > mtu {
+			c.Failf("mtu", "mtu=%d frame of %d bytes: packet %d has %d bytes", mtu, n, i, len(pk))
+		}
+		var d codecs.VP8Packet
+		out, err := d.Unmarshal(pk)
+		if err != nil {
+			c.Failf("own-output-rejected", "mtu=%d ids=%v frame of %d bytes: packet %d: %v", mtu, ids, n, i, err)
+		}
+		got = append(got, out...)
+		if (d.S == 1) != (i == 0) || d.IsPartitionHead(pk) != (i == 0) || d.PID != 0 {
+			c.Failf("start-bit", "mtu=%d ids=%v frame of %d bytes: packet %d of %d: S=%d IsPartitionHead=%v PID=%d", mtu, ids, n, i, len(pkts), d.S, d.IsPartitionHead(pk), d.PID)
+		}
+		if ids && (d.I != 1 || int(d.PictureID) != startID || (pk[2]&0x80 != 0) != (startID >= 128)) {
+			c.Failf("picture-id", "mtu=%d frame of %d bytes, expected picture id %d: packet %d carries I=%d id %d (%s)", mtu, n, startID, i, d.I, d.PictureID, hx(pk[:h]))
+		}
+	}
+	if !bytes.Equal(got, frame) {
+		c.Failf("frame-differs", "mtu=%d ids=%v frame of %d bytes: %d packets reassemble to %d bytes", mtu, ids, n, len(pkts), len(got))
+	}
+	c.Ops(len(pkts) + 1)
+	if c.Verbose() {
+		c.Notef("ids=%v start id %d mtu=%d frame of %d bytes -> %d packets", ids, startID, mtu, n, len(pkts))
+	}
+	c.NonTrivial()
+	c.Outcome(fmt.Sprintf("ids=%v", ids))
 }
